@@ -390,7 +390,29 @@ def run_greenback(case) -> dict:
 
                 greenlet.greenlet(worker_body, parent=res["bystander"]).switch()
                 return
-            if aw == "coro" or k != 0:
+            if aw == "abc" and k != 0:
+                # every bridge but the innermost awaits a hand-written coroutine object (collections.abc.Coroutine, delegating to the real one):
+                # not a native coroutine, nothing stackscope could look into -- the frames that follow are on the greenlet's stack
+                import collections.abc
+
+                class DelegCoro(collections.abc.Coroutine):
+                    def __init__(s, inner):
+                        s.inner = inner
+
+                    def send(s, v):
+                        return s.inner.send(v)
+
+                    def throw(s, *a):
+                        return s.inner.throw(*a)
+
+                    def close(s):
+                        return s.inner.close()
+
+                    def __await__(s):
+                        return s.inner.__await__()
+
+                greenback.await_(DelegCoro(co))
+            elif aw in ("coro", "abc") or k != 0:
                 greenback.await_(co)
             elif aw == "wrapper":
                 # the innermost bridge awaits an object that is not a coroutine: await_ adapts it
@@ -514,7 +536,7 @@ class C15(PropCheck):
                     for via in ("ugl", "ugl_dead", "ugl_unstarted", "ugl_c"):
                         out.append({"k": "greenback", "alternations": m, "where": where, "via": via})
                 if m >= 1:
-                    for aw in ("wrapper", "gen"):
+                    for aw in ("wrapper", "gen", "abc"):
                         out.append({"k": "greenback", "alternations": m, "where": where, "aw": aw})
         return out
 
